@@ -75,6 +75,12 @@ def real_checks(tier):
 
 
 def replay(case):
+    if "mip-variable-declared-boolean" in str(case.get("_obligation", "")):
+        # a relaxed variable shows where the LP relaxation is fractional: odd cycles among three annotators (both modes, both back-ends)
+        r = pipeline.real_medium_check(dict(cases=pipeline.odd_cycle_cases()), mode="soft", backends=("cbc", "glpk_import"))
+        if not r.get("reproduced"):
+            r = pipeline.real_medium_check(dict(cases=pipeline.odd_cycle_cases() + pipeline.dense_cases(40)), mode="best", backends=("cbc", "glpk_import"))
+        return r
     if case.get("kind") == "medium":
         return pipeline.real_medium_check(case, mode="soft", backends=("cbc", "glpk_import"))
     return pipeline.replay_pipeline(case)
